@@ -10,7 +10,7 @@ Values
   FnItem(name)         function item / fn pointer
 Unknown calls are havoc'd (fresh Lazy of the destination type; pure-function memo on the argument identity).
 """
-import itertools, re, z3
+import itertools, os, re, z3
 
 from .common import Inconclusive
 from .mirparse import Place, split_top
@@ -314,7 +314,7 @@ class Executor:
         self._impl_cache[key] = res
         return res
 
-    tree = "/repo"
+    tree = os.environ.get("VERIF_REPO", "/repo")
 
     # ------------------------------------------------------------------ fresh values
     def fresh_lazy(self, ty, label, depth=0, tags=None):
